@@ -301,11 +301,10 @@ func runC17Proc(c *fw.Case) {
 	c.Probe("process-level-case (real desync binary)")
 	sz := c09Sizes[c.Draw(len(c09Sizes), "c17.sizes")]
 	blob := genBlob(c, sz, 60*int(sz.max))
-	idx := mkIndex(blob, sz)
-	if len(blob) == 0 {
-		c.Outcome("empty")
-		return
+	if c.ChanceAdded(1, 8, "cli.emptyblob") {
+		blob = nil // an index without chunks: only the empty file matches it
 	}
+	idx := mkIndex(blob, sz)
 	indexFile := filepath.Join(c.Dir(), "blob.caibx")
 	writeIndexFile(indexFile, idx)
 	file := filepath.Join(c.Dir(), "blob")
@@ -331,6 +330,27 @@ func runC17Proc(c *fw.Case) {
 		return true
 	}
 	if !try(blob, "intact", true) {
+		return
+	}
+	// a file that is not there is never a match
+	{
+		os.Remove(file)
+		exit, _, _, err := runDesync("verify-index", "-n", n, indexFile, file)
+		if err != nil {
+			c.HarnessError("%v", err)
+			return
+		}
+		c.SubEval(1)
+		if exit == 0 {
+			c.Violate("damaged-file-accepted", "desync verify-index", "n=%s chunks=%d: the file does not exist, yet exit 0", n, len(idx.Chunks))
+			return
+		}
+	}
+	if len(blob) == 0 {
+		c.Fault("extension")
+		if try([]byte{byte(c.Draw(256, "cli.extra"))}, "extended by 1 byte (index of length 0)", false) {
+			c.Outcome("ok")
+		}
 		return
 	}
 	data := make([]byte, len(blob))
@@ -415,28 +435,47 @@ func runC16Proc(c *fw.Case) {
 		j := c.Draw(i+1, "cli.idx.order")
 		indexArgs[i], indexArgs[j] = indexArgs[j], indexArgs[i]
 	}
+	// the store may be kept uncompressed; the commands learn that from store-options in the config file
+	unc := c.ChanceAdded(1, 3, "cli.uncompressed")
+	var cfgArgs []string
+	if unc {
+		filepath.Walk(dir, func(p string, info os.FileInfo, err error) error {
+			if err == nil && info.Mode().IsRegular() && strings.HasSuffix(p, ".cacnk") && cliHex64.MatchString(filepath.Base(p)) {
+				if z, rerr := os.ReadFile(p); rerr == nil {
+					if b, derr := desync.Decompress(nil, z); derr == nil {
+						os.WriteFile(strings.TrimSuffix(p, ".cacnk"), b, 0644)
+						os.Remove(p)
+					}
+				}
+			}
+			return nil
+		})
+		cfgFile := filepath.Join(c.Dir(), "config.json")
+		os.WriteFile(cfgFile, []byte(fmt.Sprintf(`{"store-options": {%q: {"uncompressed": true}}}`, dir)), 0644)
+		cfgArgs = []string{"--config", cfgFile}
+	}
 	var bad desync.ChunkID
 	haveBad := false
 	if len(idx.Chunks) > 0 && c.Bool("corrupt") {
 		bad = idx.Chunks[c.Draw(len(idx.Chunks), "bad")].ID
-		os.WriteFile(chunkFile(dir, bad, false), []byte("not a zstd frame"), 0644)
+		os.WriteFile(chunkFile(dir, bad, unc), []byte("not this chunk, and not a zstd frame"), 0644)
 		haveBad = true
 		c.Fault("stored-chunk-corrupted")
 	}
 	op := c.Draw(3, "cli.op")
-	c.Class(fmt.Sprintf("cli op=%d indexes=%d", op, len(indexArgs)))
+	c.Class(fmt.Sprintf("cli op=%d indexes=%d unc=%v", op, len(indexArgs), unc))
 	c.NonTrivial()
 	exists := func(p string) bool { _, err := os.Lstat(p); return err == nil }
 	switch op {
 	case 0:
-		exit, _, stderr, err := runDesync(append([]string{"prune", "-y", "-s", dir}, indexArgs...)...)
+		exit, _, stderr, err := runDesync(append(append(append([]string{}, cfgArgs...), "prune", "-y", "-s", dir), indexArgs...)...)
 		if err != nil {
 			c.HarnessError("%v", err)
 			return
 		}
 		c.SubEval(1)
 		for id := range referenced {
-			if !exists(chunkFile(dir, id, false)) {
+			if !exists(chunkFile(dir, id, unc)) {
 				c.Violate("prune-deleted-too-much", "desync prune", "referenced chunk %s was removed (exit %d)", id.String()[:8], exit)
 				return
 			}
@@ -450,7 +489,7 @@ func runC16Proc(c *fw.Case) {
 			return
 		}
 		for _, id := range extra {
-			if !referenced[id] && exists(chunkFile(dir, id, false)) {
+			if !referenced[id] && exists(chunkFile(dir, id, unc)) {
 				c.Violate("prune-left-garbage", "desync prune", "exit 0 but unreferenced chunk %s is still there", id.String()[:8])
 				return
 			}
@@ -464,7 +503,7 @@ func runC16Proc(c *fw.Case) {
 		if op == 2 {
 			args = append(args, "-r")
 		}
-		exit, _, stderr, err := runDesync(args...)
+		exit, _, stderr, err := runDesync(append(append([]string{}, cfgArgs...), args...)...)
 		if err != nil {
 			c.HarnessError("%v", err)
 			return
@@ -484,12 +523,12 @@ func runC16Proc(c *fw.Case) {
 			c.Violate("verify-report-wrong", "desync verify", "invalid chunk planted=%v (%s); reported: %v", haveBad, bad.String()[:8], reported)
 			return
 		}
-		if haveBad && (op == 2) == exists(chunkFile(dir, bad, false)) {
-			c.Violate("verify-repair-wrong", "desync verify", "repair=%v but the invalid chunk file exists=%v afterwards", op == 2, exists(chunkFile(dir, bad, false)))
+		if haveBad && (op == 2) == exists(chunkFile(dir, bad, unc)) {
+			c.Violate("verify-repair-wrong", "desync verify", "repair=%v but the invalid chunk file exists=%v afterwards", op == 2, exists(chunkFile(dir, bad, unc)))
 			return
 		}
 		for id := range referenced {
-			if (!haveBad || id != bad) && !exists(chunkFile(dir, id, false)) {
+			if (!haveBad || id != bad) && !exists(chunkFile(dir, id, unc)) {
 				c.Violate("verify-deleted-too-much", "desync verify", "valid chunk %s was removed", id.String()[:8])
 				return
 			}
